@@ -188,7 +188,7 @@ func ruleConsumerPrivate(r *Run, p *Prog) {
 		}
 		eachInstr(f, func(b *ssa.BasicBlock, i int, in ssa.Instruction) {
 			fa, ok := in.(*ssa.FieldAddr)
-			if !ok || fieldVar(fa).Name() != "readIndex" {
+			if !ok || fname(fieldVar(fa)) != "readIndex" {
 				return
 			}
 			okc := f.Name() == "TryNext"
@@ -262,7 +262,7 @@ func rulePollerLoop(r *Run, p *Prog) {
 						try = true
 					}
 					if isCallTo(&c.Call, "time.Sleep") {
-						if fv, _ := loadedField(c.Call.Args[0]); fv == nil || fv.Name() != "interval" {
+						if fv, _ := loadedField(c.Call.Args[0]); fv == nil || fname(fv) != "interval" {
 							okWait = false
 							why = "sleeps for " + descr(c.Call.Args[0])
 						}
